@@ -67,7 +67,11 @@ def check(case, rec):
         src = os.path.join(d, 'src.tdms')
         with open(src, 'wb') as f:
             f.write(data)
-        if case['dst'] == 'path':
+        if case['dst'] == 'same_path':
+            dst = src                       # defragment in place
+            index = bool(case['index'])
+            istream = None
+        elif case['dst'] == 'path':
             dst = os.path.join(d, 'dst.tdms')
             index = bool(case['index'])
             istream = None
@@ -75,12 +79,12 @@ def check(case, rec):
             dst = io.BytesIO()
             istream = io.BytesIO() if case['index'] else None
             index = istream if istream is not None else False
-        source = src if case['src'] == 'path' else io.BytesIO(data)
+        source = src if (case['src'] == 'path' or case['dst'] == 'same_path') else io.BytesIO(data)
         ok, _r = rec.guard('defragment', lambda: TdmsWriter.defragment(source, dst, version=case['version'],
                                                                        index_file=index))
         if not ok:
             return
-        if case['dst'] == 'path':
+        if case['dst'] in ('path', 'same_path'):
             out = open(dst, 'rb').read()
             idx = open(dst + '_index', 'rb').read() if case['index'] else None
         else:
@@ -142,7 +146,7 @@ def _wrap(fs_strategy, with_picks=False):
             fs, picks = h['fs'], h['picks']
         else:
             fs, picks = draw(fs_strategy), None
-        return {'fs': fs, 'picks': picks, 'dst': draw(st.sampled_from(['path', 'stream'])),
+        return {'fs': fs, 'picks': picks, 'dst': draw(st.sampled_from(['path', 'stream', 'same_path'])),
                 'src': draw(st.sampled_from(['path', 'stream'])), 'index': draw(st.booleans()),
                 'version': draw(st.sampled_from([4712, 4713]))}
     return cases()
